@@ -83,3 +83,103 @@ Definition compiled (ops : list op) (name file : Z) : option (bcfun * sfun) :=
   | Ok t, Ok ls => Some (BF name file t, SF name file ls)
   | _, _ => None
   end.
+
+(* ---- the stored-trace protocol (vm/thread.go: errStackTrace / errValue, throw, throwIfErr,
+   rethrow at a stopVM frame, STOP_ITERATION) --------------------------------------------------
+   A nested run of the VM (closure, method or generator called from native code) that ends with
+   an uncaught error leaves the trace captured at the original throw in the thread
+   (errStackTrace) together with the error value (errValue); the native code returns the error
+   to the instruction that called it and throwIfErr reuses the stored trace when the values are
+   equal (Go ==: references by address, inline values by payload).  Trace ASSEMBLY (build_trace)
+   takes no error value at all; the value only enters the reuse decision below. *)
+Inductive errval : Type :=
+| VRef (addr : Z)          (* String, Error objects, big Int, collections ... *)
+| VInline (bits : Z).      (* Symbol, small Int, Float, Bool, nil, Char, sized ints *)
+
+Definition errval_eqb (a b : errval) : bool :=
+  match a, b with
+  | VRef x, VRef y => Z.eqb x y
+  | VInline x, VInline y => Z.eqb x y
+  | _, _ => false
+  end.
+Definition is_ref (v : errval) : bool := match v with VRef _ => true | VInline _ => false end.
+
+(* errStackTrace + errValue; None = nil *)
+Definition stored := option (list entry * errval).
+
+(* variants of the code: cfg_clear = throwIfErr forgets the stored trace when the instruction
+   finished without an error (the fix; false = as found), cfg_refonly = reuse only for
+   reference values (the seeded variant of the strengthening round) *)
+Record cfg : Type := CFG { cfg_clear : bool; cfg_refonly : bool }.
+
+Inductive sop : Type :=
+| OThrowOut (th : thread) (v : errval)    (* THROW / STOP_ITERATION at th, leaves its run: rethrow stores at the stopVM frame *)
+| OIfErrOut (th : thread) (v : errval)    (* native code returned v to the instruction at th; leaves the run *)
+| OIfErrCaught (th : thread) (v : errval) (* same, caught by a catch entry of the same run; the handler's instructions follow *)
+| OSwallow.                               (* native code swallowed the error; the instruction finishes normally *)
+
+Definition reuse (c : cfg) (s : stored) (v : errval) : option (list entry) :=
+  match s with
+  | Some (tr, v') => if (errval_eqb v' v && (negb (cfg_refonly c) || is_ref v))%bool then Some tr else None
+  | None => None
+  end.
+
+Definition step (c : cfg) (s : stored) (o : sop) : stored :=
+  match o with
+  | OThrowOut th v => Some (build_trace th, v)
+  | OIfErrOut th v =>
+      match reuse c s v with
+      | Some tr => Some (tr, v)
+      | None => Some (build_trace th, v)
+      end
+  | OIfErrCaught th v =>
+      match reuse c s v with
+      | Some _ => None
+      | None => if (cfg_clear c || cfg_refonly c)%bool then None else s
+      end
+  | OSwallow => if cfg_clear c then None else s
+  end.
+
+Definition run_stored (c : cfg) (s : stored) (ops : list sop) : stored := fold_left (step c) ops s.
+Definition report (s : stored) : list entry := match s with Some (tr, _) => tr | None => [] end.
+
+(* where an error comes from *)
+Inductive origin : Type :=
+| Direct (th : thread)                    (* a THROW instruction (or a generator's STOP_ITERATION) at th *)
+| Native (th : thread)                    (* created by native code and returned to the instruction at th *)
+| Crossed (inner : origin) (th : thread). (* the error of a nested run, handed back by native code to the instruction at th *)
+
+Fixpoint origin_thread (o : origin) : thread :=
+  match o with Direct th => th | Native th => th | Crossed i _ => origin_thread i end.
+
+(* the operations of an error that propagates out of every run on its way *)
+Fixpoint origin_ops (o : origin) (v : errval) : list sop :=
+  match o with
+  | Direct th => [OThrowOut th v]
+  | Native th => [OIfErrOut th v]
+  | Crossed i th => origin_ops i v ++ [OIfErrOut th v]
+  end.
+
+Inductive ending : Type := Swallowed | Caught.
+(* an earlier error that did not end the program: swallowed by native code after leaving its
+   runs, or caught by a catch entry of the outermost run it reached *)
+Definition episode_ops (o : origin) (v : errval) (e : ending) : list sop :=
+  match e with
+  | Swallowed => origin_ops o v ++ [OSwallow]
+  | Caught =>
+      match o with
+      | Direct _ => []                                     (* caught in its own run: nothing is stored *)
+      | Native th => [OIfErrCaught th v]
+      | Crossed i th => origin_ops i v ++ [OIfErrCaught th v]
+      end
+  end.
+
+Fixpoint history_ops (h : list (origin * errval * ending)) : list sop :=
+  match h with
+  | [] => []
+  | (o, v, e) :: r => episode_ops o v e ++ history_ops r
+  end.
+
+(* the trace printed for an uncaught error with origin o and value v after the history h *)
+Definition reported (c : cfg) (h : list (origin * errval * ending)) (o : origin) (v : errval) : list entry :=
+  report (run_stored c None (history_ops h ++ origin_ops o v)).
